@@ -605,6 +605,11 @@ PROPS['C15'] = dict(
 
 
 PROPS['C06']['obligations'].append(
+    O('C06.earlystop_policy_fault', 'harness.c06_faults', 'earlystop_policy_fault', 120, 300,
+      'real PythiaServicer, policy whose early_stop raises (ValueError, NotImplementedError, ZeroDivisionError, custom, KeyError): '
+      'the caller sees an error, the operation is not left ACTIVE, the next check after the recycle period reaches the '
+      'algorithm again', '5 exception classes x first/every call x with/without an old finished operation', no_validate=True))
+PROPS['C06']['obligations'].append(
     O('C06.remote_pythia_fault', 'harness.c08_deploy', 'custom_policy', 120, 300,
       'a policy raising ValueError / ZeroDivisionError / a custom Exception is reported (finished operation with an error -> '
       'RuntimeError at the client) in-process, over gRPC and through a separate Pythia server, and the next request '
